@@ -327,4 +327,50 @@ class Aggregates(Suite):
         return msg.split(":")[0] + ":" + AGGS[case["a"]].split("(")[0]
 
 
-SUITES = {"modifiers": Modifiers(), "aggregates": Aggregates()}
+class HavingOnKey(Suite):
+    """HAVING may refer to a grouping variable without any aggregate, whether or not that variable is projected."""
+    chunk = 4
+
+    def bound(self, tier):
+        return ("HAVING conditions without an aggregate (?s != <one of the keys>, BOUND(?s)) on the grouping variable, with "
+                "and without projecting it, COUNT(*) / COUNT(?x) per group: 4 patterns x 5 data graphs x every key")
+
+    def enumerate(self, tier):
+        for pi in range(len(PATTERNS)):
+            for gi in range(NG):
+                for proj in (False, True):
+                    yield {"p": pi, "g": gi, "proj": proj}
+
+    def check(self, case):
+        g = data(case["g"])
+        pat = PATTERNS[case["p"]]
+        raw = [{str(k): v for k, v in r.items()} for r in rows_of(g, pat)]
+        keys = list(OrderedDict((r.get("s"), 1) for r in raw))
+        sel = "?s " if case["proj"] else ""
+        for agg in ("COUNT(*)", "COUNT(?x)"):
+            for cond, keep in [("BOUND(?s)", lambda k: k is not None)] + \
+                              [(f"?s != {k0.n3()}", (lambda k, k0=k0: k is not None and k != k0)) for k0 in keys[:3] if k0 is not None]:
+                q = f"SELECT {sel}({agg} AS ?r) WHERE {pat} GROUP BY ?s HAVING ({cond})"
+                try:
+                    res = observable(bindings_of(g.query(PFX + q)))
+                except Exception as e:  # noqa
+                    return f"raises: {type(e).__name__}: {str(e)[:120]} on {q!r} data #{case['g']}"
+                got = Counter((str(r.get("s")) if case["proj"] else "-", str(r.get("r"))) for r in
+                              [{str(k): v for k, v in r.items()} for r in res])
+                exp = Counter()
+                for k in keys:
+                    if not keep(k):
+                        continue
+                    rows = [r for r in raw if r.get("s") == k]
+                    n = len(rows) if agg == "COUNT(*)" else sum(1 for r in rows if r.get("x") is not None)
+                    exp[(str(k) if case["proj"] else "-", str(n))] += 1
+                if got != exp:
+                    return (f"having-on-key: {q!r} data #{case['g']}: groups {sorted((got - exp).items())[:2]} unexpected, "
+                            f"{sorted((exp - got).items())[:2]} missing")
+        return None
+
+    def classify(self, case, msg):
+        return msg.split(":")[0]
+
+
+SUITES = {"modifiers": Modifiers(), "aggregates": Aggregates(), "having-on-key": HavingOnKey()}
